@@ -36,3 +36,14 @@ def func(*a: Any, k: Any = 0) -> Any:
     for v in a:
         total = total + v
     return total
+
+
+def kwsum(**kw: Any) -> Any:
+    total = 0
+    for v in kw.values():
+        total = total + v
+    return total
+
+
+def kwkeys(**kw: Any) -> Any:
+    return list(kw.keys())
